@@ -63,14 +63,19 @@ type W struct {
 	sampleN  map[string]int
 	curMon   string
 	curLen   int64
-	beat     int64 // unix nanos of the last sign of life (atomic)
+	beat     int64 // monotonic nanos (since process start) of the last sign of life (atomic)
 }
 
+// monoNow: nanoseconds since process start on the monotonic clock (monitors may run under a virtual wall clock).
+var processStart = time.Now()
+
+func monoNow() int64 { return int64(time.Since(processStart)) }
+
 // Beat records a sign of life for the per-case watchdog.
-func (w *W) Beat() { atomic.StoreInt64(&w.beat, time.Now().UnixNano()) }
+func (w *W) Beat() { atomic.StoreInt64(&w.beat, monoNow()) }
 
 // Extend tells the watchdog that the next sign of life may take up to d (e.g. while a helper process runs).
-func (w *W) Extend(d time.Duration) { atomic.StoreInt64(&w.beat, time.Now().Add(d).UnixNano()) }
+func (w *W) Extend(d time.Duration) { atomic.StoreInt64(&w.beat, monoNow()+int64(d)) }
 
 // StartWatchdog kills the process (exit 4, after dumping all goroutine stacks) when no
 // case completed for limit; the parent then treats the breadcrumb as a hang candidate.
@@ -79,7 +84,7 @@ func (w *W) StartWatchdog(limit time.Duration) {
 	go func() {
 		for {
 			time.Sleep(500 * time.Millisecond)
-			if time.Duration(time.Now().UnixNano()-atomic.LoadInt64(&w.beat)) > limit {
+			if time.Duration(monoNow()-atomic.LoadInt64(&w.beat)) > limit {
 				buf := make([]byte, 1<<20)
 				n := runtime.Stack(buf, true)
 				fmt.Fprintf(os.Stderr, "CASE-WATCHDOG: no progress for %s\n%s\n", limit, buf[:n])
